@@ -79,6 +79,8 @@ def automaton_strings(G, start, cont, extra_prefix_len):
         tails = [''.join(q) for n in range(1, cont + 1) for q in itertools.product('ACGT', repeat=n)]
     for p in short:
         for c in SYMS:
+            if cont == 1 and O.is_walk(G, start, p + c):
+                continue        # what follows an accepted step is another (vertex, symbol) transition, covered from that vertex
             for t in tails:
                 out.add(p + c + t)
     out -= base
@@ -116,17 +118,18 @@ def check_class(r, k, G, start, cont, extra, fast_ok, quick=True, brute=0):
         need = bits_needed(s)
         dec_case(r, k, G, acc, start, s, need, walk=w)
         if is_base or not quick:
-            for L in ((0, need + 3) if quick else (0, 1, need + 3)):
+            for L in (((0, need + 3) if len(s) <= 2 else (need + 3,)) if quick else (0, 1, need + 3)):
                 dec_case(r, k, G, acc, start, s, L, walk=w)
             # acceptance must not depend on a digit-shuffle table either
-            dec_case(r, k, G, acc, start, s, need, T=T, tab=tab, walk=w)
-            if fast_ok:
-                dec_case(r, k, G, acc, start, s, need, fast=True, T=T, tab=tab, walk=w)
+            if len(s) <= 2 or not quick:
+                dec_case(r, k, G, acc, start, s, need, T=T, tab=tab, walk=w)
+                if fast_ok:
+                    dec_case(r, k, G, acc, start, s, need, fast=True, T=T, tab=tab, walk=w)
         if fast_ok:
             dec_case(r, k, G, acc, start, s, need, fast=True, walk=w)
             # tight width: exactly the bits carried by the walkable prefix ("no more bits than requested")
             tight = carried_bits(G, start, s)
-            if tight != need:
+            if tight != need and (is_base or not quick or not w):
                 dec_case(r, k, G, acc, start, s, tight, fast=True, walk=w)
         if len(s) <= (2 if quick else 3) and (is_base or not quick):
             ok_chars = all(c in 'ACGT' for c in s)
@@ -141,6 +144,10 @@ def check_class(r, k, G, start, cont, extra, fast_ok, quick=True, brute=0):
                     dec_case(r, k, G, acc, start, s, need, chk=chk, walk=w)
                     if fast_ok:
                         dec_case(r, k, G, acc, start, s, need, fast=True, chk=chk, walk=w)
+                if len(s) <= 1:      # a check of any length: far beyond 64-bit arithmetic
+                    for n_ in (33, 40):
+                        dec_case(r, k, G, acc, start, s, need, chk=O.vt(s, n_), walk=w)
+                        dec_case(r, k, G, acc, start, s, need, chk=O.vt(s + 'C', n_), walk=w)
             elif len(s) <= 1 or not quick:
                 dec_case(r, k, G, acc, start, s, need, chk='AC', walk=w)
     r.states += len(strings)
